@@ -130,6 +130,9 @@ def is_known_unbounded_alloc(sig, tree):
     return sig.startswith("asan-allocation-size-too-big:") and sig.split(":", 1)[1] in UNBOUNDED_ALLOC_SITES
 
 
+PEG_RESTARTS = [0]
+
+
 def run_batch(hx, lines, gc_every=8, timeout=900):
     """Feed `lines` to the harness; on abnormal exit restart after the offending input.
     Returns (outputs list aligned with lines (None where the process died), crashes [(index, rc, stderr_tail)])."""
@@ -138,7 +141,9 @@ def run_batch(hx, lines, gc_every=8, timeout=900):
     start = 0
     while start < len(lines):
         data = ("g %d\n" % gc_every + "\n".join(lines[start:]) + "\n").encode()
-        rc, out, err = run_cmd([hx], input=data, timeout=timeout, env=ENV)
+        # the batch limit is only a backstop against a harness that blocks (the per-input limits are CPU time, inside the
+        # harness); it grows with the batch so that a loaded machine does not turn a long batch into a "hang"
+        rc, out, err = run_cmd([hx], input=data, timeout=timeout + (len(lines) - start) // 2, env=ENV)
         got = out.decode(errors="replace").split("\n")
         complete = got[:-1] if got else []
         complete = complete[1:]  # answer to the g line
@@ -148,6 +153,12 @@ def run_batch(hx, lines, gc_every=8, timeout=900):
         if rc == 0 and len(complete) >= len(lines) - start:
             break
         idx = start + len(complete)
+        if rc == 96 and b"PEG-BUDGET-RESTART" in err[-2000:] and complete:
+            # the harness abandoned a PEG call that used up its CPU budget, answered for that input and restarted itself
+            # (the abandoned call may have been inside realloc): not a finding, continue with the next input
+            PEG_RESTARTS[0] += 1
+            start = idx
+            continue
         if idx >= len(lines):
             # died in janet_deinit / after the last line: attribute to the last input
             idx = len(lines) - 1
@@ -1011,6 +1022,10 @@ def run(ctx):
                               what="%s seen once in a batch, not reproduced in isolation" % sig)
     if broken and not ctx.nviol:
         ctx.violation("broken:" + broken[0][:80], {"kind": "broken-obligation", "broken": broken}, found=False, what="no longer shown to hold: " + "; ".join(broken)[:600])
+    try:
+        depth_incs = gen_unmarsh.extract_incs(tree)      # `flags + k` per recursive call site, as regenerated into Gen/UnmarshSites.incs
+    except ExtractError as e:
+        depth_incs = {"error": str(e)}
     acc_total = sum(s["acc"] for s in stats.values())
     cov = {
         "evaluations": len(lines) + len(vlines),
@@ -1019,10 +1034,10 @@ def run(ctx):
                 "function/fiber is then called with 6 argument vectors / resumed, cancelled, stepped, iterated, printed, hashed, compared, re-marshalled and collected",
         "samples": [c[2][:80] for c in cases[:3]] + [c[2][:80] for c in cases[len(cases) // 2:len(cases) // 2 + 2]],
         "generators": stats, "accepted": acc_total, "reject_classes": dict(sorted(rej_classes.items(), key=lambda kv: -kv[1])[:25]),
-        "crash_signatures": {k: v[3] for k, v in by_sig.items()}, "fiber_model_correspondence": mstats, "function_model_correspondence": fstats, "nanbox_model_correspondence": nstats, "env_valid_model_correspondence": estats, "peg_model_correspondence": pstats, "bytes_model_correspondence": bstats, "bad_read_sites": bad_sites, "uncounted_recursion_paths": bad_depths,
+        "crash_signatures": {k: v[3] for k, v in by_sig.items()}, "fiber_model_correspondence": mstats, "function_model_correspondence": fstats, "nanbox_model_correspondence": nstats, "env_valid_model_correspondence": estats, "peg_model_correspondence": pstats, "bytes_model_correspondence": bstats, "bad_read_sites": bad_sites, "uncounted_recursion_paths": bad_depths, "depth_increments": depth_incs,
         "deep_nesting": deep_stats,
         "peg_bad_rows": [pegrows.name_of.get(o, o) for o in peg_bad] if pegrows is not None else None,
-        "resource_exits_not_counted": resource_exits,
+        "resource_exits_not_counted": resource_exits, "peg_budget_restarts": PEG_RESTARTS[0],
         "abstract_types_with_unmarshal": [a[0] for a in abs_types],
         "verify_correspondence_cases": len(vlines), "verify_correspondence_diffs": len(vdiffs), "verify_return_codes": vcodes,
         "image_checks_present": image_checks, "bad_table_rows": [ops.name_of.get(o, o) for o in bad_rows],
